@@ -11,7 +11,7 @@ print(out2[-2000:] if not ok2 else "proofs ok")
 cfgs = []
 for p in props.PROPS.values():
     for s in p["suites"]("quick"):
-        if s.cfg not in cfgs:
+        if s.cfg not in cfgs and not hasattr(s, "run_custom"):
             cfgs.append(s.cfg)
 res = ajlib.build_harnesses(cfgs)
 bad = [e for x, e in res if x is None]
